@@ -19,7 +19,7 @@ DEV = {
     "finding-forward-lut": ("TagIndexTrace_dev_lut.cfg", "forward-lut"),
 }
 T_ACTIONS = ["TReset", "TWrite", "TPrepMeta", "TFlushMeta", "TCompactMeta", "TPrepIdx", "TFlushIdx", "TCompactIdx",
-             "TReopen", "TRefresh", "TQuery"]
+             "TReopen", "TRefresh", "TQuery", "TDict"]
 
 
 def mode_of(lines):
@@ -108,6 +108,32 @@ def m_error(d):
     d["groups"] = []
 
 
+def m_dict_second_id(lines):
+    """a listing of the tag value dictionary shows one value under a second id: must be rejected"""
+    for i, ln in enumerate(lines):
+        if '"ev":"Dict"' in ln:
+            d = json.loads(ln)
+            if d["entries"]:
+                d["entries"].append([d["entries"][0][0], max(e[1] for e in d["entries"]) + 1])
+                out = list(lines)
+                out[i] = json.dumps(d, separators=(",", ":")) + "\n"
+                return out
+    return None
+
+
+def m_dict_lost_value(lines):
+    """a listing of the tag value dictionary misses a created value: must be rejected"""
+    for i, ln in enumerate(lines):
+        if '"ev":"Dict"' in ln:
+            d = json.loads(ln)
+            if d["entries"]:
+                d["entries"].pop()
+                out = list(lines)
+                out[i] = json.dumps(d, separators=(",", ":")) + "\n"
+                return out
+    return None
+
+
 def m_universe_lost_series(lines):
     """the universe loses its last written series although later answers still show it: must be rejected"""
     # (sanity of the Write binding: the judge really uses the logged universe)
@@ -171,10 +197,10 @@ def run(ctx, replay):
     os.makedirs(scr, exist_ok=True)
     if thorough:
         args = ["--small", 150, "--tour", 30, "--steps", 10, "--q", 4, "--big", 2, "--big-n", 70000, "--big-q", 3,
-                "--enum-every", 1, "--enum-depth2", 30, "--enum-triples", 40, "--findings", 2, "--lut"]
+                "--enum-every", 1, "--enum-depth2", 30, "--enum-triples", 40, "--findings", 2, "--lut", "--window", 24]
     else:
         args = ["--small", 16, "--tour", 4, "--steps", 8, "--q", 4, "--big", 1, "--big-n", 3000, "--big-q", 4,
-                "--enum-every", 13, "--enum-depth2", 20, "--findings", 2, "--lut"]
+                "--enum-every", 13, "--enum-depth2", 20, "--findings", 2, "--lut", "--window", 4]
     summ, rc, _ = ctx.run_vdrive(["tagidx", "--seed", ctx.seed, "--out", tr, "--out-findings", trf, "--scratch", scr] + args,
                                  timeout=2400)
     for u in summ["unresolved"]:
@@ -203,7 +229,8 @@ def run(ctx, replay):
         "observation channel: every series writes the value 1 once per era into one sum field; a query `select f ... group by keys` returns per value tuple the number of selected series (group by a unique key identifies them); the data path is kept trivial (all points of the asked slot are in the memory database: after a reopen every series is re-written into the next slot and queries ask only that slot)",
         "pinned semantics (from the grammar and index/kv_store.go): negated atoms are true only for series that HAVE the key; like shapes are read off the ends of the pattern (lit*, *lit, *lit*, otherwise equality; '**' and a lone '*' = contains the empty string); and / or have one precedence level and associate to the left; group by drops the series that lack one of the grouping keys; an empty selection is an empty answer; unknown metrics / tag keys are errors and are not asked",
         "regular expressions are drawn from the structured class of SortedDict (alternations of literals, prefix / suffix / contains / exact, anchored or not, rendered for Go's regexp); tag values are valid UTF-8 without the single quote (a value containing ' cannot be written in a query: the lexer has no escape)",
-        "index placements are forced through the exported FlushLifeCycle of MetaDB() / IndexDB() (PrepareFlush, Flush), Family.Compact and engine close / open, sequentially: queries concurrent with a flush are C12 / C19, crash recovery of the dictionaries is C07 / C09",
+        "index placements are forced through the exported FlushLifeCycle of MetaDB() / IndexDB() (PrepareFlush, Flush), Family.Compact and engine close / open, on one thread; 'being flushed' includes the commit of the flush: in the window universes the flushing goroutine itself asks / writes at the table-file seam of the kv layer (file of the flush complete, not yet committed, immutable generation still in memory), then asks for every entry that flush persisted and re-uses it in new series. Free-running queries racing a flush on other threads are C12 / C19, crash recovery of the dictionaries is C07 / C09",
+        "a listing of the tag value dictionary of a key (Dict event, before every dictionary compaction and at the stops of the window universes) must be a function value -> id over exactly the created values; a history in which the driver itself sees a repeated value is not continued into a dictionary compaction (the merger panics on a background goroutine)",
         "the per-metric id of a series (bitmap position) is taken to be its creation order inside the metric; the specification checks that these ids are dense",
     ]
 
@@ -233,9 +260,11 @@ def run(ctx, replay):
     tests = [(mutate_query(m_drop_group, nonempty), "an answer loses one selected group"),
              (mutate_query(m_count, nonempty), "a group counts one series more"),
              (mutate_query(m_value, grouped), "group by returns another tag value"),
-             (mutate_query(m_error, nonempty), "a query fails instead of answering")]
+             (mutate_query(m_error, nonempty), "a query fails instead of answering"),
+             (m_dict_second_id, "the dictionary lists a value under a second id")]
     if thorough:
         tests += [(mutate_query(m_extra_group, grouped), "an answer holds a group nobody belongs to"),
+                  (m_dict_lost_value, "the dictionary listing misses a created value"),
                   (m_universe_lost_series, "a written series is logged without its tags")]
     for mut, what in tests:
         vcore.corrupt_selftest(ctx, TRACE, CFG, clean, mut, what)
